@@ -87,6 +87,17 @@ func (c *Context) goError(flags Condition) (Condition, error) {
 	return flags.GoError(c.Traps)
 }
 
+// inexactResult is goError for operations whose result is known to be inexact
+// independently of the final rounding (which may drop nothing but zeros): it
+// adds Inexact and Rounded, and Underflow when the result is also subnormal.
+func (c *Context) inexactResult(flags Condition) (Condition, error) {
+	flags |= Inexact | Rounded
+	if flags.Subnormal() {
+		flags |= Underflow
+	}
+	return c.goError(flags)
+}
+
 // etiny returns the smallest value an Exponent can contain.
 func (c *Context) etiny() int32 {
 	return c.MinExponent - int32(c.Precision) + 1
@@ -945,8 +956,7 @@ func (c *Context) Ln(d, x *Decimal) (Condition, error) {
 		return 0, err
 	}
 	res := c.round(d, &tmp1)
-	res |= Inexact
-	return c.goError(res)
+	return c.inexactResult(res)
 }
 
 // Log10 sets d to the base 10 log of x.
@@ -1104,7 +1114,7 @@ func (c *Context) Exp(d, x *Decimal) (Condition, error) {
 	res |= ires
 	nc.Precision = c.Precision
 	res |= nc.round(d, d)
-	return c.goError(res)
+	return c.inexactResult(res)
 }
 
 // integerPower sets d = x**y. d and x must not point to the same Decimal.
@@ -1258,6 +1268,11 @@ func (c *Context) Pow(d, x, y *Decimal) (Condition, error) {
 
 	if yIsInt {
 		res |= c.round(d, z)
+		if res.Inexact() {
+			// The power computed at the working precision was already
+			// inexact.
+			return c.inexactResult(res)
+		}
 		return c.goError(res)
 	}
 
@@ -1277,8 +1292,7 @@ func (c *Context) Pow(d, x, y *Decimal) (Condition, error) {
 	}
 	res |= c.round(d, &tmp)
 	d.Negative = neg
-	res |= Inexact
-	return c.goError(res)
+	return c.inexactResult(res)
 }
 
 // Quantize adjusts and rounds x as necessary so it is represented with
